@@ -32,7 +32,8 @@ REPO = os.environ.get("VERIF_REPO", "/repo")
 NSHARDS = int(os.environ.get("VERIF_SHARDS", "16"))
 # Evidence and new replays describe runs against /repo itself. A run pointed at another tree (a scratch worktree with a
 # seeded change, VERIF_REPO=<dir>) writes its output next to that tree instead, so committed evidence is never clobbered.
-OUT_ROOT = ROOT if os.path.realpath(REPO) == os.path.realpath("/repo") else os.path.realpath(REPO) + ".vpout"
+# VERIF_OUT=<dir> (set by tools/multiseed.py) sends both elsewhere, so a sweep over other seeds leaves the committed seed-1 evidence alone.
+OUT_ROOT = os.environ.get("VERIF_OUT") or (ROOT if os.path.realpath(REPO) == os.path.realpath("/repo") else os.path.realpath(REPO) + ".vpout")
 
 
 # ----------------------------------------------------------------------------- basics
